@@ -275,7 +275,7 @@ fn call_writes<'a>(exec: &'a Exec, c: &CallRecord) -> BTreeSet<&'a str> {
     let mut open_names: Vec<&'a str> = vec![];
     for e in exec.log.iter().filter(|e| e.seq > c.seq_start && e.seq < c.seq_end && e.thread == c.thread && e.errno == 0) {
         match e.op {
-            FsOp::OpenTrunc | FsOp::OpenRw | FsOp::Write => {
+            FsOp::OpenTrunc | FsOp::OpenRw | FsOp::Write | FsOp::SetLen => {
                 set.insert(e.key.as_str());
                 open_names.push(e.key.as_str());
             }
